@@ -796,8 +796,9 @@ func runC04(c *Ctx) {
 		// conn's mutex, and a receiver that has to take that mutex (to close the writer) before it broadcasts the loss
 		// waits for a write that may never end — nobody is told
 		locksBefore := ""
-		if lp := p.Func("(*clientConn).loop"); lp != nil {
-			for _, bc := range callsWhere(lp, func(cc *ssa.CallCommon) bool { return calleeName(cc) == "broadcastErr" }) {
+		for _, bc := range p.callersOfStatic(bcast) {
+			lp := bc.Parent()
+			{
 				eachInstr(lp, func(in ssa.Instruction) {
 					call, ok := in.(*ssa.Call)
 					if !ok || !dominates(in, bc) || in == bc {
